@@ -12,6 +12,7 @@ import (
 	"net/http"
 	"os"
 	"strconv"
+	"strings"
 	"time"
 	"unsafe"
 
@@ -502,9 +503,13 @@ func (res *Response) eoncodeHead() {
 	}
 
 	res.trailer = map[string]string{}
-	trailers := res.header[trailerHeader]
-	for _, k := range trailers {
-		res.trailer[k] = ""
+	for _, line := range res.header[trailerHeader] {
+		// the field value is a comma-separated list of field names.
+		for _, k := range strings.Split(line, ",") {
+			if k = http.CanonicalHeaderKey(strings.Trim(k, " \t")); k != "" {
+				res.trailer[k] = ""
+			}
+		}
 	}
 	for k, vv := range res.header {
 		if _, ok := res.trailer[k]; !ok {
